@@ -49,7 +49,14 @@ def build_case(rng, spec, tier):
             reqs.append({"kind": "rule", "anchor": a, "rule": rng.choice(["path1", "path2", "subdomain"])})
     if rng.random() < 0.85 or len(reqs) < 2:
         reqs.append({"kind": "query", "q": rng.choice(QUERY_KINDS), "of": rng.choice(pool), "k": rng.choice([1, 2, 5])})
-    reqs = reqs[:3] if len(reqs) <= 3 else ([r for r in reqs if r["kind"] != "rule"][:3])
+        if rng.random() < 0.3:
+            # a second reader alive at the same time (readers must not disturb each other either)
+            reqs.append({"kind": "query", "q": rng.choice(QUERY_KINDS), "of": rng.choice(pool), "k": rng.choice([1, 2, 5])})
+    if len(reqs) > 3:
+        keep = [r for r in reqs if r["kind"] == "query"]
+        rest = [r for r in reqs if r["kind"] != "query"]
+        rng.shuffle(rest)
+        reqs = rest[: 3 - len(keep)] + keep
     return {"engine": "scheduler", "cfg": cfg, "base": base, "requests": reqs, "sseed": rng.getrandbits(32)}
 
 
@@ -175,30 +182,26 @@ def run_schedule(case, chooser, scratch, stats):
                 return out, trace, info
         m = sut.m
         reqs = case["requests"]
-        ctx = {"w": None, "ps": None}
-        qreq = None
-        for r in reqs:
-            if r["kind"] != "query":
-                continue
-            qreq = r
-            if r["q"].startswith("net_"):
-                continue
-            gid, pre = m.resolve(r["of"])
-            if gid is None and m.we:
-                gid = m.we[sorted(m.we)[0]]
-            if gid is None:
-                qreq = {"kind": "query", "q": "net_fast_out"}  # no webentity at all: fall back to the network query
-            else:
-                ctx["w"] = sut.idmap.get(gid)
-                ctx["ps"] = sorted(p for p, g in m.we.items() if g == gid)
         gens = []
-        for r in reqs:
-            rr = qreq if r["kind"] == "query" else r
-            gens.append([rr, None, False, None])  # request, generator (created at first step), done, result
+        queries = {}  # request index -> {"req", "ctx", "snaps", "started", "done"}
+        for i, r in enumerate(reqs):
+            if r["kind"] != "query":
+                gens.append([r, None, False, None, None])
+                continue
+            ctx = {"w": None, "ps": None}
+            qreq = r
+            if not r["q"].startswith("net_"):
+                gid, pre = m.resolve(r["of"])
+                if gid is None and m.we:
+                    gid = m.we[sorted(m.we)[0]]
+                if gid is None:
+                    qreq = {"kind": "query", "q": "net_fast_out"}  # no webentity at all: fall back to the network query
+                else:
+                    ctx["w"] = sut.idmap.get(gid)
+                    ctx["ps"] = sorted(p for p, g in m.we.items() if g == gid)
+            gens.append([qreq, None, False, None, ctx])  # request, generator (created at first step), done, result, ctx
+            queries[i] = {"req": qreq, "ctx": ctx, "snaps": [], "started": False, "done": False}
         M.m2_take()
-        snaps = []
-        qidx = next((i for i, g in enumerate(gens) if g[0]["kind"] == "query"), None)
-        q_started = q_done = False
 
         def snapshot():
             a, b = M.store_bytes(sut.t)
@@ -214,10 +217,10 @@ def run_schedule(case, chooser, scratch, stats):
             g = gens[i]
             try:
                 if g[1] is None:
-                    if i == qidx:
-                        snaps.append(snapshot())
-                        q_started = True
-                    g[1] = make_gen(sut, g[0], ctx)
+                    if i in queries:
+                        queries[i]["snaps"].append(snapshot())
+                        queries[i]["started"] = True
+                    g[1] = make_gen(sut, g[0], g[4] or {})
                 st = next(g[1])
                 if st.done:
                     g[2] = True
@@ -230,10 +233,14 @@ def run_schedule(case, chooser, scratch, stats):
                 return out, trace, info
             step += 1
             stats["C16_steps"] += 1
-            if q_started and not q_done:
-                snaps.append(snapshot())
-                if qidx is not None and gens[qidx][2]:
-                    q_done = True
+            live = [q for q in queries.values() if q["started"] and not q["done"]]
+            if live:
+                snap = snapshot()
+                for qi, q in queries.items():
+                    if q["started"] and not q["done"]:
+                        q["snaps"].append(snap)
+                        if gens[qi][2]:
+                            q["done"] = True
             ev = M.m2_take()
             if ev:
                 stats["m2_suspicious_events"] += len(ev)
@@ -265,15 +272,18 @@ def run_schedule(case, chooser, scratch, stats):
         if got != m.pages:
             out.append(D(["C16"], "final-pages-api", diff=sorted(set(got.items()) ^ set(m.pages.items()))[:5]))
             return out, trace, info
-        # ---- query bracket
-        if qidx is not None and snaps:
-            res = gens[qidx][3]
-            q = gens[qidx][0]
-            keys = [hashlib.sha256(repr((sorted(s.pages.items()), sorted(s.we.items()), sorted(s.out.items()), sorted(s.inn.items()))).encode()).digest() for s in snaps]
-            info["window_changes"] = len(set(keys)) - 1
-            d = bracket(q, res, snaps, ctx, stats)
+        # ---- query brackets
+        for qi, q in queries.items():
+            if not q["snaps"]:
+                continue
+            keys = [hashlib.sha256(repr((sorted(x.pages.items()), sorted(x.we.items()), sorted(x.out.items()), sorted(x.inn.items()))).encode()).digest() for x in q["snaps"]]
+            info["window_changes"] = max(info["window_changes"], len(set(keys)) - 1)
+            d = bracket(q["req"], gens[qi][3], q["snaps"], q["ctx"], stats)
             if d:
                 out.append(d)
+                break
+        if len(queries) > 1:
+            stats["C16_schedules_with_two_readers"] += 1
         a, b = M.store_bytes(sut.t)
         info["digest"] = hashlib.sha256(a + b"/" + b).hexdigest()[:16]
     finally:
